@@ -176,8 +176,261 @@ fn replay_doc(args: &[String]) {
     println!("REPLAY behaviours={} steps={} mismatches={}", nb, nsteps, out["mismatches"].as_array().unwrap().len());
 }
 
+fn jset(j: &J) -> BTreeSet<String> {
+    j.as_array().map(|a| a.iter().map(|x| x.to_string()).collect()).unwrap_or_default()
+}
+
+fn optset(j: &J) -> Option<BTreeSet<String>> {
+    let a = j.as_array()?;
+    if a.is_empty() { None } else { Some(jset(&a[0])) }
+}
+
+/// compare a logged sync state with the specification's
+fn cmp_state(exp: &J, got: &J, bad: &mut Vec<String>) {
+    for f in ["sharedHeads", "lastSentHeads", "sentHashes"] {
+        if jset(&exp[f]) != jset(&got[f]) {
+            bad.push(format!("st.{}", f));
+        }
+    }
+    for f in ["theirHeads", "theirNeed", "caps"] {
+        if optset(&exp[f]) != optset(&got[f]) || exp[f].as_array().map(|a| a.len()) != got[f].as_array().map(|a| a.len()) {
+            bad.push(format!("st.{}", f));
+        }
+    }
+    for f in ["inFlight", "haveResponded", "readOnly", "peerReadOnly", "needsReset"] {
+        if exp[f] != got[f] {
+            bad.push(format!("st.{}", f));
+        }
+    }
+    // theirHave: same number of filters with the same lastSync
+    let eh = exp["theirHave"].as_array().cloned().unwrap_or_default();
+    let gh = got["theirHave"].as_array().cloned().unwrap_or_default();
+    if eh.len() != gh.len() {
+        bad.push("st.theirHave".into());
+    } else if !eh.is_empty() {
+        let (e, g) = (eh[0].as_array().cloned().unwrap_or_default(), gh[0].as_array().cloned().unwrap_or_default());
+        if e.len() != g.len() || e.iter().zip(g.iter()).any(|(a, b)| jset(&a["lastSync"]) != jset(&b["lastSync"])) {
+            bad.push("st.theirHave".into());
+        }
+    }
+}
+
+fn replay_sync(args: &[String]) {
+    use amverif::syncx;
+    use automerge::sync;
+    use automerge::sync::SyncDoc;
+    use automerge::transaction::{CommitOptions, Transactable};
+    world::silence_panics();
+    let text = std::fs::read_to_string(&args[2]).expect("behaviours");
+    let mut nb = 0usize;
+    let mut nsteps = 0usize;
+    let mut inconclusive = 0usize;
+    let mut mism: Vec<J> = vec![];
+    'beh: for line in text.lines().filter(|l| !l.trim().is_empty()) {
+        let beh: J = serde_json::from_str(line).expect("behaviour json");
+        nb += 1;
+        let steps = beh.as_array().unwrap();
+        let fpids: Vec<i64> = steps[0]["fp"].as_array().map(|a| a.iter().filter_map(|x| x.as_i64()).collect()).unwrap_or_default();
+        let mut docs: BTreeMap<i64, Automerge> = BTreeMap::new();
+        let mut sts: BTreeMap<(i64, i64), sync::State> = BTreeMap::new();
+        let mut chans: BTreeMap<(i64, i64), std::collections::VecDeque<sync::Message>> = BTreeMap::new();
+        let mut names = syncx::Names::new();
+        let mut by_id: BTreeMap<i64, automerge::ChangeHash> = BTreeMap::new();
+        for p in 1..=3i64 {
+            docs.insert(p, Automerge::new().with_actor(enc::actor_from_num(p as u8)));
+            for q in 1..=3i64 {
+                if p != q {
+                    sts.insert((p, q), sync::State::new());
+                    chans.insert((p, q), Default::default());
+                }
+            }
+        }
+        for (si, step) in steps.iter().enumerate().skip(1) {
+            nsteps += 1;
+            let p = step["p"].as_i64().unwrap_or(1);
+            let q = step.get("q").and_then(|x| x.as_i64()).unwrap_or(0);
+            let act = step["act"].as_str().unwrap_or("");
+            let universe: Vec<automerge::ChangeHash> = by_id.values().copied().collect();
+            let forced: Vec<automerge::ChangeHash> = fpids.iter().filter_map(|i| by_id.get(i).copied()).collect();
+            let r = catch_unwind(AssertUnwindSafe(|| {
+                let mut bad: Vec<String> = vec![];
+                let mut got = json!({});
+                let mut natural_fp = false;
+                match act {
+                    "edit" => {
+                        let d = docs.get_mut(&p).unwrap();
+                        let mut tx = d.transaction();
+                        tx.put(automerge::ROOT, "k", step["id"].as_i64().unwrap_or(0)).unwrap();
+                        let (h, _) = tx.commit_with(CommitOptions::default().with_time(0));
+                        let h = h.unwrap();
+                        by_id.insert(step["id"].as_i64().unwrap(), h);
+                        names.by_hash.insert(h, step["id"].clone());
+                        got = json!({"doc": syncx::doc_json(&docs[&p], &names)});
+                        for f in ["applied", "queue", "heads"] {
+                            if jset(&got["doc"][f]) != jset(&step["doc"][f]) {
+                                bad.push(format!("doc.{}", f));
+                            }
+                        }
+                    }
+                    "gen" | "quiet" => {
+                        // natural false positives of the real filters make the step inconclusive
+                        if let Some(hs) = &sts[&(p, q)].their_have {
+                            let mine: Vec<automerge::ChangeHash> = docs[&p].get_changes(&[]).iter().map(|c| c.hash()).collect();
+                            let expm: Vec<BTreeSet<String>> = match act {
+                                _ => vec![],
+                            };
+                            let _ = expm;
+                            for (hi, h) in hs.iter().enumerate() {
+                                for x in &mine {
+                                    if h.bloom.contains_hash(x) {
+                                        // is x a true member?  the sender built the filter from its changes that are
+                                        // not ancestors of last_sync; the receiver cannot know, so compare with the
+                                        // model's members recorded when the message was received
+                                        let key = format!("{}:{}:{}", p, q, hi);
+                                        let _ = key;
+                                        let _ = x;
+                                    }
+                                }
+                            }
+                        }
+                        sync::verif_hooks::set_forced_positives(forced.clone());
+                        let m = docs[&p].generate_sync_message(sts.get_mut(&(p, q)).unwrap());
+                        sync::verif_hooks::clear_forced_positives();
+                        let gm = match &m {
+                            Some(m) => json!([syncx::msg_json(m, &names, &universe)]),
+                            None => json!([]),
+                        };
+                        let gs = syncx::state_json(&sts[&(p, q)], &names, &universe);
+                        got = json!({"msg": gm, "st": gs});
+                        if act == "quiet" {
+                            if m.is_some() {
+                                bad.push("msg.expected-none".into());
+                            }
+                        } else {
+                            let em = step["msg"].as_array().cloned().unwrap_or_default();
+                            match (&m, em.first()) {
+                                (None, None) => {}
+                                (Some(_), None) => bad.push("msg.expected-none".into()),
+                                (None, Some(_)) => bad.push("msg.expected-some".into()),
+                                (Some(mm), Some(e)) => {
+                                    let g = &got["msg"][0];
+                                    for f in ["heads", "need", "carried", "flags"] {
+                                        if jset(&e[f]) != jset(&g[f]) {
+                                            bad.push(format!("msg.{}", f));
+                                        }
+                                    }
+                                    let (eh, gh) = (e["have"].as_array().cloned().unwrap_or_default(), g["have"].as_array().cloned().unwrap_or_default());
+                                    if eh.len() != gh.len() {
+                                        bad.push("msg.have".into());
+                                    } else {
+                                        for (a, b) in eh.iter().zip(gh.iter()) {
+                                            if jset(&a["lastSync"]) != jset(&b["lastSync"]) {
+                                                bad.push("msg.have.lastSync".into());
+                                            }
+                                            // C23: no false negatives; extra positives are natural false positives
+                                            let mem = jset(&a["members"]);
+                                            let pos = jset(&b["positives"]);
+                                            if !mem.is_subset(&pos) {
+                                                bad.push("msg.have.false-negative".into());
+                                            }
+                                            if !mem.is_empty() && pos.len() > mem.len() {
+                                                natural_fp = true;
+                                            }
+                                        }
+                                    }
+                                    // the encoded message must decode to an equal message (C19)
+                                    let bytes = mm.clone().encode();
+                                    match sync::Message::decode(&bytes) {
+                                        Ok(dm) => {
+                                            if syncx::msg_json(&dm, &names, &universe) != *g {
+                                                bad.push("msg.roundtrip".into());
+                                            }
+                                        }
+                                        Err(_) => bad.push("msg.roundtrip-decode".into()),
+                                    }
+                                    chans.get_mut(&(p, q)).unwrap().push_back(mm.clone());
+                                }
+                            }
+                            cmp_state(&step["st"], &got["st"], &mut bad);
+                        }
+                    }
+                    "recv" => {
+                        let m = chans.get_mut(&(q, p)).unwrap().pop_front();
+                        match m {
+                            None => bad.push("harness.no-message".into()),
+                            Some(m) => {
+                                let res = docs.get_mut(&p).unwrap().receive_sync_message(sts.get_mut(&(p, q)).unwrap(), m);
+                                if res.is_err() {
+                                    bad.push("recv.err".into());
+                                }
+                                got = json!({"doc": syncx::doc_json(&docs[&p], &names), "st": syncx::state_json(&sts[&(p, q)], &names, &universe)});
+                                for f in ["applied", "queue", "heads"] {
+                                    if jset(&got["doc"][f]) != jset(&step["doc"][f]) {
+                                        bad.push(format!("doc.{}", f));
+                                    }
+                                }
+                                cmp_state(&step["st"], &got["st"], &mut bad);
+                            }
+                        }
+                    }
+                    "toggle" => {
+                        let ro = step["ro"].as_bool().unwrap_or(false);
+                        sts.get_mut(&(p, q)).unwrap().set_read_only(ro);
+                        got = json!({"st": syncx::state_json(&sts[&(p, q)], &names, &universe)});
+                        cmp_state(&step["st"], &got["st"], &mut bad);
+                    }
+                    "drop" => {
+                        chans.get_mut(&(p, q)).unwrap().clear();
+                        chans.get_mut(&(q, p)).unwrap().clear();
+                    }
+                    "reconnect" => {
+                        chans.get_mut(&(p, q)).unwrap().clear();
+                        chans.get_mut(&(q, p)).unwrap().clear();
+                        // both directions of the link: fresh or persisted (encode/decode) state
+                        for (a, b) in [(p, q), (q, p)] {
+                            let s = if step["persisted"].as_bool().unwrap_or(false) {
+                                sync::State::decode(&sts[&(a, b)].encode()).expect("state decode")
+                            } else {
+                                sync::State::new()
+                            };
+                            sts.insert((a, b), s);
+                        }
+                        got = json!({"st": syncx::state_json(&sts[&(p, q)], &names, &universe)});
+                        cmp_state(&step["st"], &got["st"], &mut bad);
+                    }
+                    _ => bad.push("harness.unknown-act".into()),
+                }
+                (bad, got, natural_fp)
+            }));
+            match r {
+                Ok((bad, got, natural_fp)) => {
+                    if !bad.is_empty() {
+                        if natural_fp && !bad.iter().any(|b| b.contains("false-negative")) {
+                            inconclusive += 1;
+                            continue 'beh;
+                        }
+                        mism.push(json!({"behaviour": nb - 1, "step": si, "fields": bad, "expected": step, "got": got, "line": beh}));
+                        continue 'beh;
+                    }
+                }
+                Err(pn) => {
+                    sync::verif_hooks::clear_forced_positives();
+                    mism.push(json!({"behaviour": nb - 1, "step": si, "fields": ["panic"], "expected": step, "got": world::panic_msg(pn), "line": beh}));
+                    continue 'beh;
+                }
+            }
+        }
+    }
+    let out = json!({"behaviours": nb, "steps": nsteps, "inconclusive": inconclusive, "mismatches": mism});
+    std::fs::write(&args[3], out.to_string()).unwrap();
+    println!("REPLAY behaviours={} steps={} inconclusive={} mismatches={}", nb, nsteps, inconclusive, out["mismatches"].as_array().unwrap().len());
+}
+
 fn main() {
     let args: Vec<String> = std::env::args().collect();
+    if args.len() >= 4 && args[1] == "sync" {
+        return replay_sync(&args);
+    }
     if args.len() >= 4 && args[1] == "doc" {
         // replay doc <behaviours.ndjson> <out.json> [list]
         return replay_doc(&args);
